@@ -21,6 +21,8 @@ VERIF_ROOT = os.path.dirname(os.path.dirname(os.path.abspath(__file__)))
 SRC_ROOT = os.path.realpath(os.environ.get('PYPRISM_SRC', '/repo'))
 PKG_ROOT = os.path.join(SRC_ROOT, 'pyPRISM')
 GUARD = 'PYPRISM_VERIF'
+# where evidence/ and replays/ are written (overridden only by the mutant self-test)
+OUT_ROOT = os.environ.get('PBT_OUT_ROOT', VERIF_ROOT)
 
 EXIT_OK, EXIT_VIOLATION, EXIT_HARNESS = 0, 1, 2
 
@@ -556,7 +558,7 @@ def replay_regress(pid, mod, stats, known):
 
 
 def write_replay(pid, failure):
-    d = os.path.join(VERIF_ROOT, 'replays', pid)
+    d = os.path.join(OUT_ROOT, 'replays', pid)
     os.makedirs(d, exist_ok=True)
     h = case_hash(failure['sub'], failure['spec'])
     path = os.path.join(d, '%s-%s.json' % (failure['sub'], h))
@@ -594,7 +596,7 @@ def write_evidence(pid, mod, tier, seedval, stats, wall, nviol, nregress, nshard
     ev = {'property_id': pid, 'tier': tier, 'seed': int(seedval), 'level': 'exploration',
           'coverage': cov, 'assumptions': list(getattr(mod, 'ASSUMPTIONS', [])),
           'wall_s': round(wall, 3), 'violations': int(nviol)}
-    d = os.path.join(VERIF_ROOT, 'evidence')
+    d = os.path.join(OUT_ROOT, 'evidence')
     os.makedirs(d, exist_ok=True)
     tmp = os.path.join(d, pid + '.json.tmp')
     with open(tmp, 'w') as fh:
